@@ -1323,29 +1323,44 @@ impl KeyFlags {
         })
     }
 
+    /// A flag that is set must be written: flags parsed from an empty body have no octet to write it to yet.
+    fn ensure_written(&mut self) {
+        if self.original_len == 0 {
+            self.original_len = 1;
+        }
+    }
+
     pub fn set_certify(&mut self, val: bool) {
+        self.ensure_written();
         self.known.set_certify(val);
     }
     pub fn set_encrypt_comms(&mut self, val: bool) {
+        self.ensure_written();
         self.known.set_encrypt_comms(val);
     }
     pub fn set_encrypt_storage(&mut self, val: bool) {
+        self.ensure_written();
         self.known.set_encrypt_storage(val);
     }
     pub fn set_sign(&mut self, val: bool) {
+        self.ensure_written();
         self.known.set_sign(val);
     }
     pub fn set_shared(&mut self, val: bool) {
+        self.ensure_written();
         self.known.set_shared(val);
     }
     pub fn set_authentication(&mut self, val: bool) {
+        self.ensure_written();
         self.known.set_authentication(val);
     }
     #[cfg(feature = "draft-wussler-openpgp-forwarding")]
     pub fn set_draft_decrypt_forwarded(&mut self, val: bool) {
+        self.ensure_written();
         self.known.set_draft_decrypt_forwarded(val);
     }
     pub fn set_group(&mut self, val: bool) {
+        self.ensure_written();
         self.known.set_group(val);
     }
 
@@ -1356,10 +1371,12 @@ impl KeyFlags {
     /// proprietary Additional Decryption SubKey feature:
     /// <https://www.gnupg.org/blog/20230321-adsk.html>
     pub fn set_adsk(&mut self, val: bool) {
+        self.ensure_written();
         self.known.set_adsk(val);
     }
 
     pub fn set_timestamping(&mut self, val: bool) {
+        self.ensure_written();
         self.known.set_timestamping(val);
     }
 
